@@ -88,6 +88,8 @@ class CollectionStore(object):
 
     def create_index(self, index_name, index_dict):
         self.indexes[index_name] = index_dict
+        # A collection exists from its first index on, even once its indexes are dropped again.
+        self._is_force_created = True
         if index_dict.get('expireAfterSeconds') is not None:
             self._ttl_indexes[index_name] = index_dict
 
